@@ -14,6 +14,7 @@ structure DS where
   new : Obs := none
   tmpdirs : List Path := []
   prefixes : List String := []
+  also : List Path := []
   calls : List Call := []      -- reversed
   haveDest : Bool := false
   volOk : Bool := true
@@ -147,7 +148,9 @@ def kv (w : String) : Option (String × String) :=
   | k :: v :: rest => some (k, "=".intercalate (v :: rest))
   | _ => none
 
-def tmpPred (d : DS) : Path → Bool := isTemp d.tmpdirs d.dest.dropLast d.prefixes
+/-- temporary, or (below) another file the same operation publishes (`also=`; it is the destination of its own scenario) -/
+def tmpPred (d : DS) : Path → Bool :=
+  fun p => isTemp d.tmpdirs d.dest.dropLast d.prefixes p || d.also.any (fun a => a.isPrefixOf p)
 
 def handle (d : DS) (line : String) : DS × String :=
   match PB.Drv.words line with
@@ -169,7 +172,8 @@ def handle (d : DS) (line : String) : DS × String :=
       let pf := ((get "tmpname").splitOn ",").filter (· ≠ "")
       let dp := parsePath p
       let d1 : DS := { d with dest := dp, kind := get "kind", old := o, new := n }
-      let d2 : DS := { d1 with tmpdirs := td.map parsePath, prefixes := pf, s0 := d.fs, calls := [], haveDest := true }
+      let al := (((get "also").splitOn ",").filter (· ≠ "")).map parsePath
+      let d2 : DS := { d1 with tmpdirs := td.map parsePath, prefixes := pf, also := al, s0 := d.fs, calls := [], haveDest := true }
       ({ d2 with volOk := allowed o n (vview d.fs dp) }, "ok")
     | _, _ => (d, "bad-op")
   | "sys" :: ws =>
